@@ -97,4 +97,16 @@ CLAIMS['C03'] = dict(
     note=('relative to: clang-14 lowering, STIR; inputs < 2^28 units (library contract); the result object\'s size()/NUL is C05\'s allocate; '
           '32-bit wchar_t'),
     technique='static analysis: per-iteration step summaries in lockstep (abstract interpretation), inductive argument over loop iterations')
+CLAIMS['C10'] = dict(
+    level='proof',
+    text=('The whole parser (apply_format with fetch_prefix, next_format, parse_format interpreted in place) runs over an abstract '
+          'NUL-terminated text of symbolic length; the three loops are widened and the cursor invariants (cursor <= L, < L, '
+          'm_format_str <= next) are inferred as candidates and verified inductive, so every read is proved to be at or before the '
+          'terminating NUL, every loop iteration to advance, the formatter table to be indexed below its size and parse_format\'s '
+          'precondition to hold - for format strings of any length and content. Throw sets (virtual dispatch restricted to the writer the '
+          'entry constructs), the assertion inventory, the digit-class defaults and the null guards of the pointer overloads close the claim.'),
+    note=('relative to: clang-14 lowering, STIR, the model of strtol (reads from its argument up to at most the NUL; end >= start, > start '
+          'on a leading decimal digit); user-defined format_type overloads and iostream internals are outside; assertions of the '
+          'floating-point renderer are C13, of the converters C02/C03'),
+    technique='static analysis: abstract interpretation over a symbolic NUL-terminated text with widening + Houdini-verified loop invariants; throw-set and assertion facts')
 NOT_APPLICABLE = {}
